@@ -153,6 +153,7 @@ def _run_case(ctx, case, rng):
   cals = []                    # shared statistics objects
   pristine = []                # deep copies taken when calibrate() returned (the caller never edits them)
   quantized = [False] * len(qs)
+  last_out = {}
   ctx.steps = []
   shared_use = {}
   n_steps = int(rng.integers(3, 13))
@@ -211,6 +212,7 @@ def _run_case(ctx, case, rng):
           try:
             out = q.quantize(cal)
             sha = hashlib.sha256(bytes(out.quantized_model)).hexdigest()
+            last_out[qi] = (bytes(out.quantized_model), rec_js)
             quantized[qi] = True
           except Exception as e:  # pylint: disable=broad-except
             sha = 'EXC:' + type(e).__name__
@@ -230,7 +232,20 @@ def _run_case(ctx, case, rng):
               q.validate(test, 'mse' if rng.random() < 0.5 else 'median_diff_ratio')
             except Exception:  # pylint: disable=broad-except
               ctx.count('validate_raised')
-        ctx.risky('validate', go, {'steps': ctx.steps})
+        # an interpreter abort on the returned model is not a purity matter: it is attributed (gdb) and matched against the
+        # known findings exactly as in C01
+        info = {'steps': ctx.steps}
+        try:
+          from vf.run import abortinfo
+          from vf.props import c01
+          info['census'] = c01.int16_census(models.read(last_out[qi][0]))
+          info['recipe'] = last_out[qi][1]
+          info['ops'] = common.describe_model(spec.content)
+          info['model_path'], info['feeds_path'] = abortinfo.save(os.path.join(driver.ROOT, '.work', 'risky'), last_out[qi][0],
+                                                                  {sig['key']: data[0]})
+        except Exception:  # pylint: disable=broad-except
+          pass
+        ctx.risky('interp.validate', go, info)
         ctx.steps.append(['validate', qi])
     except Exception as e:  # pylint: disable=broad-except
       ctx.count('api_raised:' + kind)
@@ -308,3 +323,7 @@ def summarize(agg):
     if st.get('api:' + api, 0) == 0:
       inc.append(f'{api} was never observed')
   return {'inconclusive': inc}
+
+
+from vf.props import c01 as _c01  # pylint: disable=g-import-not-at-top
+crash_to_violation = _c01.crash_to_violation
